@@ -71,6 +71,16 @@ pub fn run(ctx: &mut Ctx) {
             for id in AAMVA_IDS.iter() { if rng.gen_bool(0.7) { a.insert(id.to_string(), value(&mut rng, 0)); } }
             if !a.is_empty() { nsm.insert(NS_AAMVA.to_string(), a); }
         }
+        // one session in four is the "shared identifier" scenario: `sex` held under both namespaces, requested under
+        // ONE of them only, and a consent that covers everything
+        let shared_scenario = si % 4 == 0;
+        if shared_scenario {
+            nsm.entry(NS.to_string()).or_default().insert("sex".into(), Value::Integer(1.into()));
+            nsm.entry(NS.to_string()).or_default().insert("family_name".into(), Value::Text("Doe".into()));
+            let a = nsm.entry(NS_AAMVA.to_string()).or_default();
+            a.insert("sex".into(), Value::Integer(2.into()));
+            a.insert("organ_donor".into(), Value::Integer(1.into()));
+        }
         let alg = [DigestAlgorithm::SHA256, DigestAlgorithm::SHA384, DigestAlgorithm::SHA512][rng.gen_range(0..3)];
         let decoys = rng.gen_bool(0.5);
         // one session in three presents a document of a third-party issuer (digestIDs restart at 0 in every namespace)
@@ -110,7 +120,11 @@ pub fn run(ctx: &mut Ctx) {
             }
             r
         };
-        let first = gen_req(&mut rng);
+        let first = if shared_scenario {
+            let in_core = si % 8 == 0;
+            [(NS.to_string(), if in_core { vec!["family_name".to_string(), "sex".to_string()] } else { vec!["family_name".to_string()] }),
+             (NS_AAMVA.to_string(), if in_core { vec!["organ_donor".to_string()] } else { vec!["organ_donor".to_string(), "sex".to_string()] })].into_iter().collect()
+        } else { gen_req(&mut rng) };
         // the reader trusts the issuer's root; in some sessions the registry also lists other roots first: an unrelated
         // one, and an EXPIRED earlier issue of the same root (same name, same key) as after a root renewal
         let mut anchors = vec![];
@@ -142,6 +156,8 @@ pub fn run(ctx: &mut Ctx) {
             for (ns, ids) in &req {
                 let mut p: Vec<String> = ids.iter().filter(|_| rng.gen_bool(0.8)).cloned().collect();
                 if rng.gen_bool(0.3) { p.push("given_name".into()); p.push("organ_donor".into()); }
+                // one consent in four is as wide as it gets: every identifier of the data model under every requested namespace
+                if rng.gen_bool(0.25) || (shared_scenario && round == 0) { p = CORE_IDS.iter().chain(AAMVA_IDS.iter()).map(|s| s.to_string()).collect(); ctx.count("consent:everything"); }
                 pm.insert(ns.clone(), p);
             }
             if rng.gen_bool(0.2) { pm.insert("org.example.ns-not-requested".into(), vec!["family_name".into()]); }
